@@ -78,6 +78,19 @@ class Check(PropCheck):
                 names = gen.default_names(n)
                 D = {frozenset(p): Fraction(c) for p in itertools.combinations(names, 2)}
                 cases.append(self.mat_case('const%d_%d' % (n, min(int(c), 9)), names, D))
+        # a matrix relabelled / permuted through set_taxa before clustering; taxon names containing blanks (legal through the API)
+        for j in range(24 if self.tier == 'quick' else 400):
+            n = rng.randint(3, 7)
+            names = ['o%d' % i for i in range(n)]
+            new_names = [rng.choice(['strain %d', 'iso\t%d', 'n%d', 'x %d y']) % i for i in range(n)]
+            rng.shuffle(new_names)
+            D = {frozenset(p): Fraction(rng.randint(1, 60), 4) for p in itertools.combinations(new_names, 2)}
+            c = self.mat_case('rel%d' % j, new_names, D)
+            if j % 2 == 0:
+                # built under other names, then relabelled
+                first = c.ops[0].split()
+                c.ops = [' '.join(first[:2] + [vf.enc_str(x) for x in names] + first[2 + n:]), 'm_set_taxa ' + ' '.join(vf.enc_str(x) for x in new_names)] + c.ops[1:]
+            cases.append(c)
         # all-equal matrix: the known rounding-level finding (KF4)
         for n in (4, 5):
             names = gen.default_names(n)
@@ -196,6 +209,8 @@ class Check(PropCheck):
         self.ensure_meta(case)
         names = case.meta['names']; D = case.meta['D']
         n = len(names)
+        if case.ops[1].startswith('m_set_taxa'):
+            il = il[1:]           # a relabelling step before the clustering: the remaining observations keep their places
         if il[1][0] in ('panic', 'crash', 'hang'):
             return [(1, 'upgma ' + il[1][0])]
         if il[1][0] != 'ok':
